@@ -123,6 +123,9 @@ func genC01(seed uint64, thorough bool) c01case {
 					b.WriteString("total " + strconv.Itoa(r.Intn(5000)))
 				}
 			default:
+				if r.Chance(1, 5) { // indented line (leading blanks / a tab are part of the output)
+					b.WriteString(r.Pick([]string{"  ", " ", "\t", "    "}))
+				}
 				for w := r.Range(1, 7); w > 0; w-- {
 					if r.Chance(1, 8) {
 						b.WriteString(r.Pick(c01esc))
@@ -134,6 +137,8 @@ func genC01(seed uint64, thorough bool) c01case {
 				}
 				if r.Chance(1, 4) {
 					b.WriteString(strings.Repeat(" ", r.Range(1, 4)))
+				} else if r.Chance(1, 12) {
+					b.WriteString("\t") // a trailing tab is not a trailing space: it stays
 				}
 			}
 			b.WriteString(cs.nl)
